@@ -15,6 +15,8 @@ use crate::peers::{proc_counts, script_server, tunnel_script_server, Step};
 
 #[derive(Debug, Clone, Copy, Serialize, Deserialize, PartialEq, Eq, Hash)]
 pub enum StallPoint {
+    /// the peer never answers the connection attempt (IP-literal URL, connect timeout 5 s): the overall timeout bounds this too
+    Connect,
     /// the server never reads a 24 MiB upload
     Upload,
     BeforeReply,
@@ -93,7 +95,7 @@ fn split_response(point: StallPoint) -> (Vec<u8>, Vec<u8>) {
     };
     let find = |w: &[u8], pat: &[u8]| w.windows(pat.len()).position(|x| x == pat).unwrap();
     let (wire, k) = match point {
-        StallPoint::Upload | StallPoint::BeforeReply => (length.clone(), 0),
+        StallPoint::Connect | StallPoint::Upload | StallPoint::BeforeReply => (length.clone(), 0),
         StallPoint::InStatusLine => (length.clone(), 10),
         StallPoint::InHeader => (length.clone(), find(&length, b"X-Pad") + 9),
         StallPoint::AfterHead => (length.clone(), find(&length, b"\r\n\r\n") + 4),
@@ -292,11 +294,19 @@ fn run_once(case: &Case) -> Result<Observed, String> {
             (vec![s], false)
         }
     };
-    let tunnel = case.tunnel && scripts.len() == 1 && !upload;
+    let connect_stall = matches!(case.scenario, Scenario::Stall { point: StallPoint::Connect, .. });
+    let hole = if connect_stall { Some(crate::peers::black_hole(false, 1).map_err(|e| format!("black hole: {e}"))?) } else { None };
+    let tunnel = case.tunnel && scripts.len() == 1 && !upload && !connect_stall;
     let mut server = if tunnel { tunnel_script_server("good", scripts.into_iter().next().unwrap()) } else { script_server(scripts) }.map_err(|e| format!("server: {e}"))?;
     install_sched(&case.sched);
     let proxy_port = server.addr.port();
-    let url = if tunnel { "https://127.0.0.1:4443/x".to_string() } else { format!("http://127.0.0.1:{}/x", server.addr.port()) };
+    let url = if let Some(h) = &hole {
+        format!("http://{}/x", h.addr)
+    } else if tunnel {
+        "https://127.0.0.1:4443/x".to_string()
+    } else {
+        format!("http://127.0.0.1:{}/x", server.addr.port())
+    };
     let t0 = Instant::now();
     let case2 = case.clone();
     let (tx, rx) = std::sync::mpsc::channel();
@@ -341,6 +351,7 @@ fn run_once(case: &Case) -> Result<Observed, String> {
     obs.accepted = server.accepted.load(std::sync::atomic::Ordering::Relaxed);
     server.finish();
     drop(server);
+    drop(hole);
     // S4: threads and descriptors are released promptly
     let t1 = Instant::now();
     loop {
@@ -413,6 +424,9 @@ labelled points of the watchdog / reader (verif-hooks H3). Oracle S1-S4. non-tri
                 v.push(Case { scenario: Scenario::Stall { point: p, drip_ms: 0 }, t_ms: 0, r_ms: 150, reads: vec![512], sched: vec![], tunnel: false, api: 0 });
             }
         }
+        // the connection attempt itself is never answered
+        v.push(Case { scenario: Scenario::Stall { point: StallPoint::Connect, drip_ms: 0 }, t_ms: 300, r_ms: 5000, reads: vec![4096], sched: vec![], tunnel: false, api: 0 });
+        v.push(Case { scenario: Scenario::Stall { point: StallPoint::Connect, drip_ms: 0 }, t_ms: 1, r_ms: 150, reads: vec![4096], sched: vec![], tunnel: false, api: 0 });
         for p in [StallPoint::BeforeReply, StallPoint::AfterHead, StallPoint::InChunkData, StallPoint::InLengthBody] {
             // overall timeout (almost) expired before the connection exists; and read timeout far below the overall timeout
             v.push(Case { scenario: Scenario::Stall { point: p, drip_ms: 0 }, t_ms: 1, r_ms: 5000, reads: vec![4096], sched: vec![], tunnel: false, api: 0 });
@@ -455,6 +469,7 @@ labelled points of the watchdog / reader (verif-hooks H3). Oracle S1-S4. non-tri
 
     fn strategy(_tier: Tier) -> BoxedStrategy<Case> {
         let point = prop_oneof![
+            1 => Just(StallPoint::Connect),
             1 => Just(StallPoint::Upload),
             1 => Just(StallPoint::BeforeReply),
             1 => Just(StallPoint::InStatusLine),
@@ -488,7 +503,7 @@ labelled points of the watchdog / reader (verif-hooks H3). Oracle S1-S4. non-tri
                 // only the read timeout: a silent stall (not an upload, not dripping) must end by R
                 if no_t {
                     if let Scenario::Stall { point, drip_ms: 0 } = &scenario {
-                        if *point != StallPoint::Upload {
+                        if *point != StallPoint::Upload && *point != StallPoint::Connect {
                             t_ms = 0;
                         }
                     }
@@ -561,7 +576,8 @@ labelled points of the watchdog / reader (verif-hooks H3). Oracle S1-S4. non-tri
                     if obs.reread_clean_eof {
                         return Outcome::fail("C13:cut-body-reported-complete-on-reread", format!("after the timeout error a further read returned Ok(0); {describe}"));
                     }
-                    let bound = if t > 0 { if *drip_ms == 0 { t.min(r) } else { t } } else { r };
+                    // (the read timeout says nothing about the connection attempt: only T and the 5 s connect timeout bound that)
+                    let bound = if *point == StallPoint::Connect { if t > 0 { t.min(5000) } else { 5000 } } else if t > 0 { if *drip_ms == 0 { t.min(r) } else { t } } else { r };
                     match obs.err_after_ms {
                         None => timing_fail = Some(Outcome::fail("C13:no-timeout", format!("no call failed; {describe}"))),
                         Some(ms) => {
@@ -574,8 +590,9 @@ labelled points of the watchdog / reader (verif-hooks H3). Oracle S1-S4. non-tri
                             }
                         }
                     }
-                    ctx.nontrivial = !matches!(point, StallPoint::Upload | StallPoint::BeforeReply | StallPoint::InStatusLine | StallPoint::InHeader) || *drip_ms > 0;
+                    ctx.nontrivial = !matches!(point, StallPoint::Connect | StallPoint::Upload | StallPoint::BeforeReply | StallPoint::InStatusLine | StallPoint::InHeader) || *drip_ms > 0;
                     ctx.label(match point {
+                        StallPoint::Connect => "stall:connect",
                         StallPoint::Upload => "stall:upload",
                         StallPoint::BeforeReply => "stall:before-reply",
                         StallPoint::InStatusLine => "stall:status-line",
